@@ -89,7 +89,7 @@ func (r *Reader) newExifBox(b *box) (inner box, err error) {
 		return
 	}
 	var size int
-	for i := 0; i+8 <= len(buf); i += 4 {
+	for i := 0; i+8 <= len(buf); i++ { // (an item near the start of mdat is at any distance 0..16 from the window start)
 		if string(buf[i+4:i+4+4]) == "Exif" {
 			size = int(bmffEndian.Uint32(buf[i:i+4])) + i
 			break
